@@ -245,7 +245,11 @@ func VerifSetup_CIModuli(n int, tier int) []uint64 {
 
 func VerifH_C01_NTTStagesConjugateInvariant() {
 	vConfig("backend", "int")
-	for _, n := range []int{8, 16, 32} {
+	sizes := []int{8, 16, 32}
+	if vTier() > 0 {
+		sizes = []int{8, 16, 32, 64, 128}
+	}
+	for _, n := range sizes {
 		for _, q := range VerifSetup_CIModuli(n, vTier()) {
 			s := VerifSetup_CISubRing(n, q)
 			fwd := VerifSetup_CIMatrix(n, q, false)
